@@ -219,11 +219,11 @@ CLAIMED = {
   'C16': dict(
     text='Theorems about a Gallina model of flatten_dict/unflatten_dict (written from the code: DFS with relative paths, insertion-ordered dict, the '
          'unflatten cursor loop) proved for every well-formed nested dict of any depth and every is_leaf: exact round trip with keep_empty_nodes, round trip up '
-         'to pruning of leafless sub-dicts without it, path_aware_map = structural map, separator-joined keys for every single-byte separator absent from the '
+         'to pruning of leafless sub-dicts without it, and the other direction - every flat dict with non-empty prefix-free keys and leaf / empty-node values is rebuilt by unflatten into a well-formed dict that flattens back to exactly the same entries, the emitted paths being pairwise different (a permutation of the input; induction on the inserted path with a one-insertion-adds-one-entry lemma) - path_aware_map = structural map, separator-joined keys for every single-byte separator absent from the '
          'keys (split (join p) = p), and the State set laws on flat states (merge: later wins; merge inverse of split; a - b exact). Tied to /repo per run by '
          'evaluating the model in Coq on the flat dicts and round-trip results the real functions produced.',
-    note='Trusted: Coq kernel, vm_compute, harness, jaxcompat. Not proved (correspondence/oracle only): flatten(unflatten f)=f, sortedness of to_flat_state, '
-         'pure-dict conversions. Known findings F10 (root declared leaf), F13 (multi-char separators) refuted by theorem and listed; F1, F18 fixed. No axioms.',
+    note='Trusted: Coq kernel, vm_compute, harness, jaxcompat. Not proved (correspondence/oracle only): sortedness of to_flat_state, '
+         'pure-dict conversions; flatten after unflatten is proved as equality of entry sets with distinct paths (the order of a Python dict built from an arbitrarily ordered flat dict is compared per run only). Known findings F10 (root declared leaf), F13 (multi-char separators) refuted by theorem and listed; F1, F18 fixed. No axioms.',
     technique='Coq proof (nested tree induction, list lemmas) + per-run model-vs-implementation correspondence by vm_compute',
     ref='DESIGN.md section 5, C16'),
   'C17': dict(
